@@ -154,6 +154,17 @@ def judge(repo, fi, pname, uses, search, cons=None, depth=0):
                     bad.append((u, 'hands the source to %s, which %s' % (
                         tgt.qualname, bad2[0][1])))
                     continue
+        if m == 'escape' and cons is not None and depth < 3:
+            # handed to the constructor of a repo class: the wrapper is lazy
+            # when the constructor only stores the source (or iter() of it)
+            # and every method reads the stored source one element per
+            # request
+            why = wrapper_class_verdict(repo, cons, fi, u, depth)
+            if why is None:
+                continue
+            if why:
+                bad.append((u, why))
+                continue
         if m == 'libcall':
             bad.append((u, 'hands the source to %s, a library callable not '
                         'known to be lazy' % u.detail))
@@ -165,6 +176,63 @@ def judge(repo, fi, pname, uses, search, cons=None, depth=0):
             continue      # handed to a user lambda as a value
         bad.append((u, 'materialises the source (%s %s)' % (m, u.detail)))
     return bad, consuming
+
+
+def wrapper_class_verdict(repo, cons, fi, u, depth):
+    """None: the class the source is handed to is a lazy wrapper; a string:
+    why it is not; '': not a class construction that can be judged."""
+    ci = repo.lookup(u.detail.replace(':', '.')) if u.detail else None
+    if not isinstance(ci, model.ClassInfo):
+        return ''
+    call = u.node
+    while call is not None and not isinstance(call, ast.Call):
+        call = getattr(call, '_parent', None)
+    if call is None:
+        return ''
+    init = ci.methods.get('__init__')
+    if init is None:
+        return ''
+    idx = [i for i, a in enumerate(call.args) if a is u.node]
+    names = init.params()[1:]
+    if not idx or idx[0] >= len(names):
+        return ''
+    pname = names[idx[0]]
+    attrs = set()
+    for x in cons.uses(init, pname):
+        if x.mode == 'store' and x.detail.startswith('self.') and \
+                x.via in (None, 'builtins.iter'):
+            attrs.add(x.detail[5:])
+        elif x.mode in ('test', 'lazy'):
+            continue
+        else:
+            return 'hands the source to %s, whose constructor %s it (%s)' % (
+                ci.node.name, x.mode, model.norm(x.node)[:40])
+    for m in ci.methods.values():
+        for n in ast.walk(m.node):
+            if not (isinstance(n, ast.Attribute) and isinstance(
+                    n.value, ast.Name) and n.value.id == 'self' and
+                    isinstance(n.ctx, ast.Load) and n.attr in attrs):
+                continue
+            for x in cons.classify(m, n, n, depth + 1, set()):
+                if x.mode in ('test', 'lazy', 'return'):
+                    continue
+                if x.mode == 'next' and m.name != '__init__' and \
+                        not model.enclosing(x.node, (ast.For, ast.While)):
+                    continue      # one element per request
+                if x.mode == 'store' and x.detail.startswith('self.') and \
+                        x.via in (None, 'builtins.iter'):
+                    if x.detail[5:] not in attrs:
+                        return ''   # aliasing beyond what is followed
+                    continue
+                if x.mode == 'loop' and m.name != '__init__' and (
+                        x.loop_yields or x.loop_exits):
+                    continue
+                if x.mode == 'escape' and x.detail == ci.key:
+                    continue      # a fresh cursor of the same class
+                return 'hands the source to %s, whose %s %s the stored ' \
+                    'source (%s)' % (ci.node.name, m.name, x.mode,
+                                     model.norm(x.node)[:40])
+    return None
 
 
 def check_table(repo, rep, uni, cons, table, rule, search, armed=True):
@@ -224,7 +292,7 @@ def check_plumbing(repo, rep, cons):
                       (ut.func('memorize'), None)):
         pname = fi.params()[0]
         uses = cons.uses(fi, pname)
-        bad, consuming = judge(repo, fi, pname, uses, False)
+        bad, consuming = judge(repo, fi, pname, uses, False, cons)
         n += 1
         site = '%s/%s' % (fi.key, pname)
         if not bad:
